@@ -380,8 +380,7 @@ def state_oracle(hist: tuple) -> Tuple[Optional[Dict[str, Any]], int]:
         zc, model, now = r.zc, r.model, w.now_ms
         names = query_names(model)
         singles = [(nm, t) for nm in names for t in QTYPES
-                   if not (t == 255 and nm.lower() in {s.server.lower() for s in TEMPLATES.values()} | {"moved.local."})
-                   and not (t == 255 and nm.lower() == rm.ENUM)]
+                   if not (t == 255 and nm.lower() in {s.server.lower() for s in TEMPLATES.values()} | {"moved.local."})]
         problem = None
         for q in singles:
             n += 1
